@@ -253,6 +253,7 @@ def run_split(db, sims, cuts, deliv, sd):
             if rc != 0:
                 return {"rc": rc, "call": k, "err": (I.errors() or "")[:400], "pieces": pieces}
             got = read_rows(I)
+            I.components()          # a client may look at the list between calls; the final list must still be current
             per_call.append(sum(len(v) for v in got.values()))
             for n, r in got.items():
                 rows.setdefault(n, []).extend(r)
